@@ -248,7 +248,8 @@ func TestDatagramLinesIndependent(t *testing.T) {
 			}
 			for _, e := range o.events {
 				wantEvents = append(wantEvents, e)
-				dateGiven = append(dateGiven, strings.Contains(s.text, "|d:"))
+				// only an event generated with a d: attribute carries its own time (title/text may contain "|d:" as plain content)
+				dateGiven = append(dateGiven, s.kind == "event" && s.hasDate)
 			}
 			if s.kind == "piece" {
 				allKnown = false
